@@ -122,7 +122,7 @@ Definition rrefresh (r : rstate) (n : node) (enable node_enable : bool) (fail : 
 Record pstate := mkP { ps_ratio : Z; ps_c : cstate; ps_r : rstate; ps_n : node }.
 
 Inductive pop :=
-| PSample (node_err pods_err : bool) (policy ucpu umem : Z)
+| PSample (node_err pods_err : bool) (policy ucpu umem : Z) (psel : Z)
 | PReport (fail : Z)               (* 0 none, 1 the probe's node read fails, 2/3/4 see rhandle *)
 | PTypes (kind : Z) (types : list Z)
 | PReporterCfg (enable node_enable : bool) (fail : Z)
@@ -144,15 +144,15 @@ Definition with_alloc (n : node) (c m : Z) : node :=
 Definition with_annot (n : node) (a : option (list Z)) : node :=
   mkNode (n_label n) (n_acpu n) (n_amem n) a (n_xcpu n) (n_xmem n).
 
-Definition pstep (pods : list pod) (s : pstate) (o : pop) : pstate * pout :=
+Definition pstep (pods : list (list pod)) (s : pstate) (o : pop) : pstate * pout :=
   let n := ps_n s in
   match o with
-  | PSample node_err pods_err policy ucpu umem =>
+  | PSample node_err pods_err policy ucpu umem psel =>
       let '(c', _) := cstep (ps_ratio s) pods (ps_c s)
-                        (OSample node_err (n_label n) (n_acpu n) (n_amem n) pods_err policy ucpu umem) in
+                        (OSample node_err (n_label n) (n_acpu n) (n_amem n) pods_err policy ucpu umem psel) in
       (mkP (ps_ratio s) c' (ps_r s) n, mkO None false 0)
   | PReport fail =>
-      match snd (cstep (ps_ratio s) pods (ps_c s) (OReport (fail =? 1) (n_label n) (n_annot n))) with
+      match snd (cstep (ps_ratio s) pods (ps_c s) (OReport (fail =? 1) (n_label n) (n_annot n) (n_acpu n) (n_amem n))) with
       | ReportOut (Some ev) =>
           if r_active (ps_r s) then
             let '(r', n', err) := rhandle (ps_r s) n ev fail in
@@ -173,7 +173,7 @@ Definition pstep (pods : list pod) (s : pstate) (o : pop) : pstate * pout :=
   | PRestart ratio => (mkP ratio cinit rinit n, mkO None false 0)
   end.
 
-Fixpoint prun (pods : list pod) (s : pstate) (ops : list pop) : pstate * list (pout * node) :=
+Fixpoint prun (pods : list (list pod)) (s : pstate) (ops : list pop) : pstate * list (pout * node) :=
   match ops with
   | [] => (s, [])
   | o :: r => let '(s1, out) := pstep pods s o in
